@@ -245,7 +245,7 @@ def run_property(prop, tier='quick', seed=0, replay=None):
     violations = []
     for r in refuted:
         b = base_oid(r.ob.oid)
-        hit = [f for f in kf.get('findings', []) if f['property'] == prop and f['obligation'] == b]
+        hit = [f for f in kf.get('findings', []) if f['property'] == prop and f.get('obligation') == b]
         if hit:
             known.append((r, hit[0]))
         else:
@@ -282,7 +282,7 @@ def run_property(prop, tier='quick', seed=0, replay=None):
             r.solver = 'concrete-search'
             refuted.append(r)
             b = base_oid(r.ob.oid)
-            hit = [f for f in kf.get('findings', []) if f['property'] == prop and f['obligation'] == b]
+            hit = [f for f in kf.get('findings', []) if f['property'] == prop and f.get('obligation') == b]
             if hit:
                 known.append((r, hit[0]))
             else:
